@@ -301,6 +301,13 @@ Example C13_ex_vdiff :
   in_range 3 (src 1 2) = true /\ in_range 3 (src 1 0) = false.
 Proof. vm_compute. repeat split. Qed.
 
+(* NaN-like arithmetic: a null operand gives null, the fill value is not subtracted from anything *)
+Example C13_ex_vdiff_null :
+  vdiff d_fz sub_fz 1 (Some (Some 10)) [Some 4; None; Some 12; Some 5] = Ok [Some 10; None; None; Some (-7)] /\
+  vdiff d_fz sub_fz 0 None [Some 4; None] = Ok [Some 0; None] /\
+  (forall a b, is_none d_fz a = true \/ is_none d_fz b = true -> is_none d_fz (sub_fz b a) = true).
+Proof. split; [|split]; try (vm_compute; reflexivity). exact sub_fz_null. Qed.
+
 Example C13_ex_vpct_change :
   vpct_change d_oz qops cast_oz 1 [Some 1; Some 2; None; Some 0; Some 4; Some 6]
   = Ok [None; Some 1%Q; None; None; None; Some (1 # 2)%Q] /\
